@@ -333,11 +333,12 @@ func verifyDelivered(w *World, h *recHandler, conns []*c04conn, final bool) {
 }
 
 type handoff struct {
-	payload []byte
-	task    int
-	invoke  uint64
-	ret     uint64
-	err     error
+	batchAfter *handoff // second message of a SendBatch: must directly follow this one on the wire
+	payload    []byte
+	task       int
+	invoke     uint64
+	ret        uint64
+	err        error
 }
 
 // c04outbound: 1-4 tasks hand unique payloads to each handler while the peer reads at
@@ -377,10 +378,22 @@ func c04outbound(w *World, hs []*recHandler, conns []*c04conn, wdl time.Duration
 				for i := 0; i < per; i++ {
 					fs := []Field{{Tag: "35", Val: "D"}, F(TagText, fmt.Sprintf("h%d-t%d-i%d", hi, t, i)), F(96, strings.Repeat("z", w.W.Draw(300)))}
 					o := &handoff{payload: Build(fs, WireOpts{}), task: t, invoke: w.Sched.NextSeq()}
-					if w.W.Chance(1, 2) {
+					switch w.W.Draw(3) {
+					case 0:
 						o.err = h.SendRaw(o.payload)
-					} else {
+					case 1:
 						o.err = h.Send(messages.NewMockMessage("D", o.payload, nil))
+					default:
+						// a batch: its messages leave whole and in order
+						fs2 := []Field{{Tag: "35", Val: "D"}, F(TagText, fmt.Sprintf("h%d-t%d-i%d-b", hi, t, i)), F(96, strings.Repeat("y", w.W.Draw(200)))}
+						o2 := &handoff{payload: Build(fs2, WireOpts{}), task: t, invoke: o.invoke, batchAfter: o}
+						err := h.SendBatch([]simplefixgo.SendingMessage{messages.NewMockMessage("D", o.payload, nil), messages.NewMockMessage("D", o2.payload, nil)})
+						o.err, o2.err = err, err
+						o2.ret = w.Sched.NextSeq()
+						o.ret = o2.ret
+						offs = append(offs, o, o2)
+						w.Probe("batch_handoff")
+						continue
 					}
 					o.ret = w.Sched.NextSeq()
 					offs = append(offs, o)
@@ -453,6 +466,17 @@ func c04outbound(w *World, hs []*recHandler, conns []*c04conn, wdl time.Duration
 		}
 		if len(msgs) > okCount && len(w.Viol) == 0 && !died {
 			w.Violate("outbound-extra", "", fmt.Sprintf("%d messages on the wire, %d were handed off", len(msgs), okCount))
+		}
+		for _, b := range offs {
+			if b.batchAfter != nil && b.err == nil {
+				pa, oka := pos[string(b.batchAfter.payload)]
+				pb, okb := pos[string(b.payload)]
+				// (another hand-off may fall between the two: SendRaw does not take the handler's lock, and
+				// the statement only asks for whole messages in hand-off order)
+				if oka && okb && pb < pa {
+					w.Violate("outbound-order", "within-batch", "the two messages of one SendBatch left in the opposite order")
+				}
+			}
 		}
 		for _, a := range offs {
 			for _, b := range offs {
